@@ -367,6 +367,9 @@ type Machine struct {
 	lastRun         *G
 	preemptions     int
 	maxPreempt      int
+	atomicOnly      bool // exploration mode restricted to scheduling points around sync/atomic operations
+	inAtomicOp      bool
+	yieldAtSync     bool // the goroutine that just yielded did so at a synchronisation point (not by blocking)
 	timeSlip        int64 // exploration mode: a timer due within this many ns may fire at any scheduling point (real time passes while code runs)
 	slips           int
 	observedTerms   []observation
